@@ -307,5 +307,71 @@ end
 def query (rx : Rx) (segs : List Seg) (doc : J) : List RNode :=
   evalSegs ⟨rx, doc⟩ segs [⟨[], doc⟩]
 
+/-! ### 2.4.3 Well-typedness of function expressions, 2.3.5.1 filter-expression syntax -/
+
+/-- singular query: only name and index selectors, one per child segment -/
+def singularSegs : List Seg → Bool
+  | [] => true
+  | .child [.name _] :: rest => singularSegs rest
+  | .child [.index _] :: rest => singularSegs rest
+  | _ => false
+
+mutual
+  /-- `e` is a well-typed logical expression (usable as a filter / test / operand of `&&`, `||`, `!`) -/
+  def wtLogical : Expr → Bool
+    | .not e => wtLogical e
+    | .infix l op r =>
+      if op == .and || op == .or then wtLogical l && wtLogical r
+      else if op == .eq || op == .ne || op == .lt || op == .le || op == .gt || op == .ge then
+        wtComparable l && wtComparable r
+      else false
+    | .self q => wtSegs q
+    | .root q fake => !fake && wtSegs q
+    | .func name args =>
+      if name = "match".toList ∨ name = "search".toList then
+        match args with
+        | [a, b] => wtComparable a && wtComparable b
+        | _ => false
+      else false
+    | _ => false
+
+  /-- `e` is a comparable / a ValueType argument: literal, singular query, or function of ValueType -/
+  def wtComparable : Expr → Bool
+    | .nil | .bool _ | .int _ | .flt _ | .str _ => true
+    | .self q => singularSegs q
+    | .root q fake => !fake && singularSegs q
+    | .func name args =>
+      if name = "length".toList then
+        match args with
+        | [a] => wtComparable a
+        | _ => false
+      else if name = "count".toList ∨ name = "value".toList then
+        match args with
+        | [a] => wtNodesArg a
+        | _ => false
+      else false
+    | _ => false
+
+  /-- NodesType argument: any (well-typed) query -/
+  def wtNodesArg : Expr → Bool
+    | .self q => wtSegs q
+    | .root q fake => !fake && wtSegs q
+    | _ => false
+
+  def wtSel : Sel → Bool
+    | .filter e => wtLogical e
+    | .keys => false
+    | _ => true
+  def wtSels : List Sel → Bool
+    | [] => true
+    | s :: ss => wtSel s && wtSels ss
+  /-- well-typed filters everywhere, and every `..` is followed by a child segment (RFC grammar) -/
+  def wtSegs : List Seg → Bool
+    | [] => true
+    | .child sels :: rest => wtSels sels && wtSegs rest
+    | .desc :: .child sels :: rest => wtSels sels && wtSegs rest
+    | .desc :: _ => false
+end
+
 end Rfc
 end JP
